@@ -21,7 +21,10 @@ Inductive tmsg :=
 | TUploadFailed (has_reason : bool)        (* rfbFileUploadFailed *)
 | TDownloadCancel                          (* rfbFileDownloadCancel *)
 | TMkdir (name : str)                      (* rfbFileCreateDirRequest *)
-| TClose.                                  (* the connection is dropped (by the peer or the server) *)
+| TClose                                   (* the connection is dropped (by the peer or the server) *)
+| TMsgTrunc.                               (* a message whose fixed part or announced rest does not arrive completely (rfbReadExact
+                                              fails): e.g. rfbFileUploadData with realSize = compressedSize = 0 - the end-of-upload
+                                              marker - without the 4 bytes of modification time.  The handler drops the client. *)
 
 Inductive tfs :=
 | TStat (p : str) | TOpendir (p : str) | TOpenR (p : str) | TCreat (p : str)
@@ -114,6 +117,7 @@ Definition tight_step (v : tvariant) (root : str) (st : tstate) (m : tmsg) : lis
       if Zlength n >=? C19_PATH_MAX - 1 then drop st
       else match conv v root n with Some p => ([TMkdirOp p], st) | None => ([], st) end
   | TClose => drop st
+  | TMsgTrunc => drop st
   end.
 
 (* handleMessage, per message: [g] = registered && switched on && not view-only at that moment; with the
